@@ -90,6 +90,10 @@ type EngineConfig struct {
 	PCrash      float64 `json:"p_crash"`
 	PFailTail   float64 `json:"p_fail_tail"`
 	PSimulate   float64 `json:"p_simulate,omitempty"`
+	// InitialHeight: the chain's first block has this height (0 or 1: an ordinary new chain).
+	// A chain restarted from an export keeps counting; heights just below 2^8, 2^16 and 2^32
+	// make the run cross the values at which a byte of a big-endian height key rolls over.
+	InitialHeight int64 `json:"initial_height,omitempty"`
 	DeltaMode   string  `json:"delta_mode"`
 	FaultFree   bool    `json:"fault_free"`
 	OneTxBlocks bool    `json:"one_tx_blocks"`
